@@ -1,0 +1,15 @@
+//go:build verif
+
+package graphql_datasource
+
+// Contracts for the deductive verifier in /verif (comment-only file, build tag verif).
+
+// C13: two subscriptions share an upstream trigger only if their whole upstream input (url, body, header and
+// initial payload) is identical: the whole input goes into the trigger digest.
+//@ func SubscriptionSource.HashTriggerInput
+//@   ghost var g_whole bool = false
+//@   ghost var g_n int = 0
+//@   at call Digest.Write: ghost g_whole = g_whole || (arg0 == xxh && arg1 == input)
+//@   at call Digest.Write: ghost g_n = g_n + 1
+//@   ensures {trigger.identity.covers.the.whole.upstream.input} result == nil ==> g_whole && g_n == 1
+//@   modifies *
